@@ -65,6 +65,10 @@ def judge(cur, s, cname, node, result, change, error, before_snap, everything):
         foot = ""  # the balanced move rewrites at the root (both sides of '=')
         if rs[0] != "=":
             out.append(("equation-lost", f"root became {rs[0]}"))
+        else:
+            mp = moved_term_problem(s, rs, SG.sig(node), RW.path_of(node))
+            if mp:
+                out.append(("balanced-move-moved-another-term", mp))
     elif cname == "AG":
         foot = RW.path_of(node.parent) if node.parent is not None else ""
     else:
@@ -91,6 +95,23 @@ def judge(cur, s, cname, node, result, change, error, before_snap, everything):
     return out
 
 
+def moved_term_problem(s, rs, node_sig, node_path):
+    """Balanced move of an addend: exactly the requested term leaves its side and is subtracted on the other
+    side (L + t = R  ->  L = R - t).  Returns a detail string if another term was moved."""
+    if s[0] != "=" or rs[0] != "=" or not node_path:
+        return None
+    side = 2 if node_path[0] == "L" else 3
+    other = 3 if side == 2 else 2
+    want_other = ("-", None, s[other], node_sig)
+    if rs[other] == want_other:
+        return None
+    # division type (coefficient of a product): both sides divided by the node
+    if rs[2] is not None and rs[3] is not None and rs[2][0] == "/" and rs[3][0] == "/" and rs[2][3] == node_sig and rs[3][3] == node_sig:
+        return None
+    return (f"requested term {SG.show(node_sig)} at '{node_path}' of {SG.show(s)}, but the result is {SG.show(rs)}: "
+            f"expected {SG.show(want_other)} on the other side")
+
+
 class V(steps.Visitor):
     def on_state(self, acc, ctx, root, s):
         self.everything = audit.all_nodes(root)
@@ -114,6 +135,10 @@ class V(steps.Visitor):
                         res.append(("arity", "; ".join(ar[:3])))
                     elif SG.variables(rs) != SG.variables(s):
                         res.append(("variable-set-changed", f"{sorted(SG.variables(s))} -> {sorted(SG.variables(rs))}"))
+                    elif cname == "BM" and ctx.get("node_sig") is not None:
+                        mp = moved_term_problem(s, rs, ctx["node_sig"], ctx.get("node_path", ""))
+                        if mp:
+                            res.append(("balanced-move-moved-another-term", mp))
             except SG.Cyclic as e:
                 res.append(("links-inconsistent", f"cycle: {e}"))
             for kind, detail in res:
@@ -142,6 +167,8 @@ def run(tier, seed):
     if tier == "quick":
         acc.merge(steps.run(V, steps.small_texts("expr") + steps.small_texts("eqn"), 2, "any", seed, 0, key="small"))
     acc.merge(steps.run(V, steps.small_texts("expr") + steps.small_texts("eqn"), "inplace", "any", seed, 0, key="small"))
+    # ... and the same two live steps without listing the nodes again in between (stale r_index / memories)
+    acc.merge(steps.run(V, steps.small_texts("eqn") + steps.small_texts("expr")[::4], "inplace-stale", "any", seed, 0, key="stale"))
     # trees assembled from a piece and its clone: identical subtrees share node ids
     dup = [f"{a} = {b} + {a}" for a in ("2x", "3x^2", "x + 1", "2 * y") for b in ("y", "3", "2x")]
     dup += [f"{a} + {b} + {a}" for a in ("2x", "x^2", "4 * y", "2 + x") for b in ("y", "3")]
@@ -184,17 +211,5 @@ def _replay_direct(case):
 
 
 def replay(case):
-    """direct replay of the recorded trace; if the recorded violation depends on state that rule objects
-    carried over from the exploration of the same seed, fall back to re-exploring that seed from fresh
-    rule objects (deterministic: rule objects are reset per seed)"""
-    want = case.get("_core")
-    try:
-        got = _replay_direct(case)
-    except Exception:  # noqa
-        got = []
-    if got and (want is None or any(c == want for c, _ in got)):
-        return got
-    again = steps.reexplore(case, V)
-    if want is not None and any(c == want for c, _ in again):
-        return [(c, d) for c, d in again if c == want]
-    return again or got
+    """three-level replay, each level in a fresh process (see steps.layered_replay)"""
+    return steps.layered_replay(case, _replay_direct, V)
